@@ -10,6 +10,7 @@ import ast
 import sys
 from dataclasses import dataclass
 from dataclasses import fields as getfields
+from enum import IntEnum
 from functools import partial
 from itertools import zip_longest
 from typing import TYPE_CHECKING, Any, Callable
@@ -26,16 +27,85 @@ if TYPE_CHECKING:
     from _griffe.models import Class, Module
 
 
-def _yield(element: str | Expr | tuple[str | Expr, ...], *, flat: bool = True) -> Iterator[str | Expr]:
+class _Precedence(IntEnum):
+    """Precedence levels of Python expressions, from the loosest to the tightest binding (same order as `ast.unparse`)."""
+
+    NONE = 0
+    YIELD = 1  # `yield`, `yield from`
+    TEST = 2  # `a if b else c`, `lambda: a`
+    OR = 3
+    AND = 4
+    NOT = 5
+    CMP = 6  # `<`, `>`, `==`, `>=`, `<=`, `!=`, `in`, `not in`, `is`, `is not`
+    BOR = 7
+    BXOR = 8
+    BAND = 9
+    SHIFT = 10
+    ARITH = 11  # `+`, `-`
+    TERM = 12  # `*`, `@`, `/`, `%`, `//`
+    FACTOR = 13  # unary `+`, `-`, `~`
+    POWER = 14
+    AWAIT = 15
+    ATOM = 16
+
+
+_binary_op_precedence = {
+    "|": _Precedence.BOR,
+    "^": _Precedence.BXOR,
+    "&": _Precedence.BAND,
+    "<<": _Precedence.SHIFT,
+    ">>": _Precedence.SHIFT,
+    "+": _Precedence.ARITH,
+    "-": _Precedence.ARITH,
+    "*": _Precedence.TERM,
+    "@": _Precedence.TERM,
+    "/": _Precedence.TERM,
+    "%": _Precedence.TERM,
+    "//": _Precedence.TERM,
+    "**": _Precedence.POWER,
+}
+
+
+def _precedence(element: str | Expr) -> _Precedence:  # noqa: PLR0911
+    # Everything else is an atom, or comes with its own delimiters.
+    if isinstance(element, ExprBinOp):
+        return _binary_op_precedence.get(element.operator, _Precedence.ATOM)
+    if isinstance(element, ExprBoolOp):
+        return _Precedence.OR if element.operator == "or" else _Precedence.AND
+    if isinstance(element, ExprUnaryOp):
+        return _Precedence.NOT if element.operator == "not " else _Precedence.FACTOR
+    if isinstance(element, ExprCompare):
+        return _Precedence.CMP
+    if isinstance(element, (ExprIfExp, ExprLambda)):
+        return _Precedence.TEST
+    if isinstance(element, (ExprYield, ExprYieldFrom)):
+        return _Precedence.YIELD
+    return _Precedence.ATOM
+
+
+def _yield(
+    element: str | Expr | tuple[str | Expr, ...],
+    *,
+    flat: bool = True,
+    precedence: _Precedence = _Precedence.NONE,
+) -> Iterator[str | Expr]:
+    # `precedence` is the level required by the position of the element:
+    # an expression that binds less tightly is written between parentheses.
     if isinstance(element, str):
         yield element
     elif isinstance(element, tuple):
         for elem in element:
-            yield from _yield(elem, flat=flat)
-    elif flat:
-        yield from element.iterate(flat=True)
+            yield from _yield(elem, flat=flat, precedence=precedence)
     else:
-        yield element
+        parentheses = _precedence(element) < precedence
+        if parentheses:
+            yield "("
+        if flat:
+            yield from element.iterate(flat=True)
+        else:
+            yield element
+        if parentheses:
+            yield ")"
 
 
 def _join(
@@ -43,15 +113,16 @@ def _join(
     joint: str | Expr,
     *,
     flat: bool = True,
+    precedence: _Precedence = _Precedence.NONE,
 ) -> Iterator[str | Expr]:
     it = iter(elements)
     try:
-        yield from _yield(next(it), flat=flat)
+        yield from _yield(next(it), flat=flat, precedence=precedence)
     except StopIteration:
         return
     for element in it:
         yield from _yield(joint, flat=flat)
-        yield from _yield(element, flat=flat)
+        yield from _yield(element, flat=flat, precedence=precedence)
 
 
 def _field_as_dict(
@@ -188,7 +259,7 @@ class ExprAttribute(Expr):
         if isinstance(self.first, str) and self.first.isdecimal():
             # An integer literal is parenthesized: `1.real` is not valid Python.
             values = [("(", self.first, ")"), *self.values[1:]]
-        yield from _join(values, ".", flat=flat)
+        yield from _join(values, ".", flat=flat, precedence=_Precedence.ATOM)
 
     def append(self, value: ExprName) -> None:
         """Append a name to this attribute.
@@ -236,9 +307,15 @@ class ExprBinOp(Expr):
     """Right part."""
 
     def iterate(self, *, flat: bool = True) -> Iterator[str | Expr]:
-        yield from _yield(self.left, flat=flat)
+        precedence = _precedence(self)
+        if self.operator == "**":
+            # The power operator binds more tightly than a unary operator on its left, and is right-associative.
+            left, right = _Precedence.AWAIT, _Precedence.FACTOR
+        else:
+            left, right = precedence, _Precedence(min(precedence + 1, _Precedence.ATOM))
+        yield from _yield(self.left, flat=flat, precedence=left)
         yield f" {self.operator} "
-        yield from _yield(self.right, flat=flat)
+        yield from _yield(self.right, flat=flat, precedence=right)
 
 
 # YORE: EOL 3.9: Replace `**_dataclass_opts` with `slots=True` within line.
@@ -252,7 +329,7 @@ class ExprBoolOp(Expr):
     """Operands."""
 
     def iterate(self, *, flat: bool = True) -> Iterator[str | Expr]:
-        yield from _join(self.values, f" {self.operator} ", flat=flat)
+        yield from _join(self.values, f" {self.operator} ", flat=flat, precedence=_Precedence(_precedence(self) + 1))
 
 
 # YORE: EOL 3.9: Replace `**_dataclass_opts` with `slots=True` within line.
@@ -273,13 +350,13 @@ class ExprCall(Expr):
         return self.function.canonical_path
 
     def iterate(self, *, flat: bool = True) -> Iterator[str | Expr]:
-        yield from _yield(self.function, flat=flat)
+        yield from _yield(self.function, flat=flat, precedence=_Precedence.ATOM)
         if len(self.arguments) == 1 and isinstance(self.arguments[0], ExprGeneratorExp):
             # A generator expression passed as sole argument brings its own parentheses: `sum(x for x in y)`.
             yield from _yield(self.arguments[0], flat=flat)
             return
         yield "("
-        yield from _join(self.arguments, ", ", flat=flat)
+        yield from _join(self.arguments, ", ", flat=flat, precedence=_Precedence.TEST)
         yield ")"
 
 
@@ -296,9 +373,14 @@ class ExprCompare(Expr):
     """Things compared."""
 
     def iterate(self, *, flat: bool = True) -> Iterator[str | Expr]:
-        yield from _yield(self.left, flat=flat)
+        yield from _yield(self.left, flat=flat, precedence=_Precedence.BOR)
         yield " "
-        yield from _join(zip_longest(self.operators, [], self.comparators, fillvalue=" "), " ", flat=flat)
+        yield from _join(
+            zip_longest(self.operators, [], self.comparators, fillvalue=" "),
+            " ",
+            flat=flat,
+            precedence=_Precedence.BOR,
+        )
 
 
 # YORE: EOL 3.9: Replace `**_dataclass_opts` with `slots=True` within line.
@@ -319,12 +401,12 @@ class ExprComprehension(Expr):
         if self.is_async:
             yield "async "
         yield "for "
-        yield from _yield(self.target, flat=flat)
+        yield from _yield(self.target, flat=flat, precedence=_Precedence.BOR)
         yield " in "
-        yield from _yield(self.iterable, flat=flat)
+        yield from _yield(self.iterable, flat=flat, precedence=_Precedence.OR)
         if self.conditions:
             yield " if "
-            yield from _join(self.conditions, " if ", flat=flat)
+            yield from _join(self.conditions, " if ", flat=flat, precedence=_Precedence.OR)
 
 
 # TODO: `ExprConstant` is never instantiated,
@@ -355,11 +437,16 @@ class ExprDict(Expr):
 
     def iterate(self, *, flat: bool = True) -> Iterator[str | Expr]:
         yield "{"
-        yield from _join(
-            (("**", value) if key is None else (key, ": ", value) for key, value in zip(self.keys, self.values)),
-            ", ",
-            flat=flat,
-        )
+        for index, (key, value) in enumerate(zip(self.keys, self.values)):
+            if index:
+                yield ", "
+            if key is None:
+                yield "**"
+                yield from _yield(value, flat=flat, precedence=_Precedence.BOR)
+            else:
+                yield from _yield(key, flat=flat, precedence=_Precedence.TEST)
+                yield ": "
+                yield from _yield(value, flat=flat, precedence=_Precedence.TEST)
         yield "}"
 
 
@@ -377,9 +464,9 @@ class ExprDictComp(Expr):
 
     def iterate(self, *, flat: bool = True) -> Iterator[str | Expr]:
         yield "{"
-        yield from _yield(self.key, flat=flat)
+        yield from _yield(self.key, flat=flat, precedence=_Precedence.TEST)
         yield ": "
-        yield from _yield(self.value, flat=flat)
+        yield from _yield(self.value, flat=flat, precedence=_Precedence.TEST)
         yield " "
         yield from _join(self.generators, " ", flat=flat)
         yield "}"
@@ -394,7 +481,7 @@ class ExprExtSlice(Expr):
     """Dims."""
 
     def iterate(self, *, flat: bool = True) -> Iterator[str | Expr]:
-        yield from _join(self.dims, ", ", flat=flat)
+        yield from _join(self.dims, ", ", flat=flat, precedence=_Precedence.TEST)
 
 
 # YORE: EOL 3.9: Replace `**_dataclass_opts` with `slots=True` within line.
@@ -407,7 +494,7 @@ class ExprFormatted(Expr):
 
     def iterate(self, *, flat: bool = True) -> Iterator[str | Expr]:
         yield "{"
-        yield from _yield(self.value, flat=flat)
+        yield from _yield(self.value, flat=flat, precedence=_Precedence.OR)
         yield "}"
 
 
@@ -423,7 +510,7 @@ class ExprGeneratorExp(Expr):
 
     def iterate(self, *, flat: bool = True) -> Iterator[str | Expr]:
         yield "("
-        yield from _yield(self.element, flat=flat)
+        yield from _yield(self.element, flat=flat, precedence=_Precedence.TEST)
         yield " "
         yield from _join(self.generators, " ", flat=flat)
         yield ")"
@@ -442,11 +529,11 @@ class ExprIfExp(Expr):
     """Other expression."""
 
     def iterate(self, *, flat: bool = True) -> Iterator[str | Expr]:
-        yield from _yield(self.body, flat=flat)
+        yield from _yield(self.body, flat=flat, precedence=_Precedence.OR)
         yield " if "
-        yield from _yield(self.test, flat=flat)
+        yield from _yield(self.test, flat=flat, precedence=_Precedence.OR)
         yield " else "
-        yield from _yield(self.orelse, flat=flat)
+        yield from _yield(self.orelse, flat=flat, precedence=_Precedence.TEST)
 
 
 # YORE: EOL 3.9: Replace `**_dataclass_opts` with `slots=True` within line.
@@ -501,7 +588,7 @@ class ExprKeyword(Expr):
     def iterate(self, *, flat: bool = True) -> Iterator[str | Expr]:
         yield self.name
         yield "="
-        yield from _yield(self.value, flat=flat)
+        yield from _yield(self.value, flat=flat, precedence=_Precedence.TEST)
 
 
 # YORE: EOL 3.9: Replace `**_dataclass_opts` with `slots=True` within line.
@@ -514,7 +601,7 @@ class ExprVarPositional(Expr):
 
     def iterate(self, *, flat: bool = True) -> Iterator[str | Expr]:
         yield "*"
-        yield from _yield(self.value, flat=flat)
+        yield from _yield(self.value, flat=flat, precedence=_Precedence.BOR)
 
 
 # YORE: EOL 3.9: Replace `**_dataclass_opts` with `slots=True` within line.
@@ -527,7 +614,7 @@ class ExprVarKeyword(Expr):
 
     def iterate(self, *, flat: bool = True) -> Iterator[str | Expr]:
         yield "**"
-        yield from _yield(self.value, flat=flat)
+        yield from _yield(self.value, flat=flat, precedence=_Precedence.TEST)
 
 
 # YORE: EOL 3.9: Replace `**_dataclass_opts` with `slots=True` within line.
@@ -566,14 +653,14 @@ class ExprLambda(Expr):
             yield parameter.name
             if parameter.default and parameter.kind not in (ParameterKind.var_positional, ParameterKind.var_keyword):
                 yield "="
-                yield from _yield(parameter.default, flat=flat)
+                yield from _yield(parameter.default, flat=flat, precedence=_Precedence.TEST)
             if index < length:
                 yield ", "
         if pos_only:
             # All parameters are positional-only.
             yield ", /"
         yield ": "
-        yield from _yield(self.body, flat=flat)
+        yield from _yield(self.body, flat=flat, precedence=_Precedence.TEST)
 
 
 # YORE: EOL 3.9: Replace `**_dataclass_opts` with `slots=True` within line.
@@ -586,7 +673,7 @@ class ExprList(Expr):
 
     def iterate(self, *, flat: bool = True) -> Iterator[str | Expr]:
         yield "["
-        yield from _join(self.elements, ", ", flat=flat)
+        yield from _join(self.elements, ", ", flat=flat, precedence=_Precedence.TEST)
         yield "]"
 
 
@@ -602,7 +689,7 @@ class ExprListComp(Expr):
 
     def iterate(self, *, flat: bool = True) -> Iterator[str | Expr]:
         yield "["
-        yield from _yield(self.element, flat=flat)
+        yield from _yield(self.element, flat=flat, precedence=_Precedence.TEST)
         yield " "
         yield from _join(self.generators, " ", flat=flat)
         yield "]"
@@ -702,9 +789,9 @@ class ExprNamedExpr(Expr):
 
     def iterate(self, *, flat: bool = True) -> Iterator[str | Expr]:
         yield "("
-        yield from _yield(self.target, flat=flat)
+        yield from _yield(self.target, flat=flat, precedence=_Precedence.ATOM)
         yield " := "
-        yield from _yield(self.value, flat=flat)
+        yield from _yield(self.value, flat=flat, precedence=_Precedence.TEST)
         yield ")"
 
 
@@ -733,7 +820,7 @@ class ExprSet(Expr):
 
     def iterate(self, *, flat: bool = True) -> Iterator[str | Expr]:
         yield "{"
-        yield from _join(self.elements, ", ", flat=flat)
+        yield from _join(self.elements, ", ", flat=flat, precedence=_Precedence.TEST)
         yield "}"
 
 
@@ -749,7 +836,7 @@ class ExprSetComp(Expr):
 
     def iterate(self, *, flat: bool = True) -> Iterator[str | Expr]:
         yield "{"
-        yield from _yield(self.element, flat=flat)
+        yield from _yield(self.element, flat=flat, precedence=_Precedence.TEST)
         yield " "
         yield from _join(self.generators, " ", flat=flat)
         yield "}"
@@ -769,13 +856,13 @@ class ExprSlice(Expr):
 
     def iterate(self, *, flat: bool = True) -> Iterator[str | Expr]:
         if self.lower is not None:
-            yield from _yield(self.lower, flat=flat)
+            yield from _yield(self.lower, flat=flat, precedence=_Precedence.TEST)
         yield ":"
         if self.upper is not None:
-            yield from _yield(self.upper, flat=flat)
+            yield from _yield(self.upper, flat=flat, precedence=_Precedence.TEST)
         if self.step is not None:
             yield ":"
-            yield from _yield(self.step, flat=flat)
+            yield from _yield(self.step, flat=flat, precedence=_Precedence.TEST)
 
 
 # YORE: EOL 3.9: Replace `**_dataclass_opts` with `slots=True` within line.
@@ -789,9 +876,9 @@ class ExprSubscript(Expr):
     """Slice part."""
 
     def iterate(self, *, flat: bool = True) -> Iterator[str | Expr]:
-        yield from _yield(self.left, flat=flat)
+        yield from _yield(self.left, flat=flat, precedence=_Precedence.ATOM)
         yield "["
-        yield from _yield(self.slice, flat=flat)
+        yield from _yield(self.slice, flat=flat, precedence=_Precedence.TEST)
         yield "]"
 
     @property
@@ -824,7 +911,7 @@ class ExprTuple(Expr):
         parentheses = not self.implicit or not self.elements
         if parentheses:
             yield "("
-        yield from _join(self.elements, ", ", flat=flat)
+        yield from _join(self.elements, ", ", flat=flat, precedence=_Precedence.TEST)
         if len(self.elements) == 1:
             yield ","
         if parentheses:
@@ -843,7 +930,7 @@ class ExprUnaryOp(Expr):
 
     def iterate(self, *, flat: bool = True) -> Iterator[str | Expr]:
         yield self.operator
-        yield from _yield(self.value, flat=flat)
+        yield from _yield(self.value, flat=flat, precedence=_precedence(self))
 
 
 # YORE: EOL 3.9: Replace `**_dataclass_opts` with `slots=True` within line.
@@ -858,7 +945,7 @@ class ExprYield(Expr):
         yield "yield"
         if self.value is not None:
             yield " "
-            yield from _yield(self.value, flat=flat)
+            yield from _yield(self.value, flat=flat, precedence=_Precedence.TEST)
 
 
 # YORE: EOL 3.9: Replace `**_dataclass_opts` with `slots=True` within line.
@@ -871,7 +958,7 @@ class ExprYieldFrom(Expr):
 
     def iterate(self, *, flat: bool = True) -> Iterator[str | Expr]:
         yield "yield from "
-        yield from _yield(self.value, flat=flat)
+        yield from _yield(self.value, flat=flat, precedence=_Precedence.TEST)
 
 
 _unary_op_map = {
